@@ -50,7 +50,21 @@ type opIn struct {
 	Force bool  `json:"force,omitempty"`
 	Entry []int `json:"entry,omitempty"` // nil = ./...
 	Fail  *int  `json:"fail,omitempty"`
+	// the context handed to Execute is cancelled (or its deadline passes) at a chosen point; nil = never
+	Cancel *cancelIn `json:"cancel,omitempty"`
 }
+
+// cancelIn: At = pre (cancelled before the call) | expired (deadline in the past at the call) | new | type | defer
+// (while package P is generated: in GeneratorNewer.New / in GenerateType of the first tagged type / in a deferred
+// callback; a package that is skipped as cached never reaches the point).  Deadline: the in-package points wait for
+// a short timeout to pass instead of calling cancel().
+type cancelIn struct {
+	At       string `json:"at"`
+	P        int    `json:"p,omitempty"`
+	Deadline bool   `json:"deadline,omitempty"`
+}
+
+func (c *cancelIn) inPkg() bool { return c != nil && (c.At == "new" || c.At == "type" || c.At == "defer") }
 
 type sumIO struct {
 	Data []byte      `json:"data"`
@@ -542,7 +556,9 @@ func (e *coqEnc) kvList(kv [][2]string) string {
 
 type runObs struct {
 	Executed []int       `json:"executed"`
-	Err      int         `json:"err"` // 0 none | 1 injected generator failure | 2 saving gengo.sum failed | 3 other
+	Err      int         `json:"err"` // 0 none | 1 injected generator failure | 2 saving gengo.sum failed | 3 other | 4 the context's error (Canceled / DeadlineExceeded)
+	CtxDone  bool        `json:"ctx_done,omitempty"` // the context was cancelled / expired when Execute returned
+	Fired    bool        `json:"fired,omitempty"`    // the in-package cancellation point was reached
 	ErrText  string      `json:"err_text,omitempty"`
 	Hashes   []string    `json:"hashes"` // "" = not hashable
 	Loaded   [][2]string `json:"loaded"`
@@ -580,6 +596,12 @@ func runChild(root string, in *input, o *opIn, scratch string) (*runResp, error)
 	}
 	if o.Fail != nil {
 		req.Fail = importPath(in.Mod, in.Pkgs[*o.Fail].Dir)
+	}
+	if o.Cancel != nil {
+		req.Cancel = &cancelReq{At: o.Cancel.At, Deadline: o.Cancel.Deadline}
+		if o.Cancel.inPkg() {
+			req.Cancel.Pkg = importPath(in.Mod, in.Pkgs[o.Cancel.P].Dir)
+		}
 	}
 	data, _ := json.Marshal(req)
 	rf := filepath.Join(scratch, "req.json")
@@ -634,6 +656,38 @@ func (in *input) entryIdx(o *opIn) []int {
 	return all
 }
 
+// scopeSorted: the packages the loop of Execute visits for this run (entrypoints and what they import; without All the
+// entrypoints only), in the order of LocalPkgPaths (sorted import paths)
+func (in *input) scopeSorted(o *opIn) []int {
+	entry := in.entryIdx(o)
+	seen := map[int]bool{}
+	var walk func(i int)
+	walk = func(i int) {
+		if seen[i] {
+			return
+		}
+		seen[i] = true
+		if o.All {
+			for _, j := range in.Pkgs[i].Imports {
+				walk(j)
+			}
+		}
+	}
+	for _, e := range entry {
+		walk(e)
+	}
+	var out []int
+	for i := range in.Pkgs {
+		if seen[i] {
+			out = append(out, i)
+		}
+	}
+	sort.Slice(out, func(a, b int) bool {
+		return importPath(in.Mod, in.Pkgs[out[a]].Dir) < importPath(in.Mod, in.Pkgs[out[b]].Dir)
+	})
+	return out
+}
+
 func valid(in *input) string {
 	if in.Mod == "" || len(in.Pkgs) == 0 || len(in.Pkgs) > 6 {
 		return "bad module"
@@ -685,6 +739,14 @@ func valid(in *input) string {
 		}
 		if o.Fail != nil && (*o.Fail < 0 || *o.Fail >= len(in.Pkgs)) {
 			return "bad fail"
+		}
+		if c := o.Cancel; c != nil {
+			if o.K != "run" || !(c.At == "pre" || c.At == "expired" || c.inPkg()) || c.P < 0 || c.P >= len(in.Pkgs) {
+				return "bad cancel"
+			}
+			if !c.inPkg() && (c.P != 0 || c.Deadline) {
+				return "bad cancel"
+			}
 		}
 		if (o.K == "set" || o.K == "del") && (o.File == "" || o.File == "doc.go" || strings.Contains(o.File, "..")) {
 			return "bad file"
@@ -818,6 +880,8 @@ func (prop) Run(raw json.RawMessage, scratch string) core.Result {
 				ro.Err = 0
 			case "gen":
 				ro.Err = 1
+			case "ctx":
+				ro.Err = 4
 			default:
 				ro.Err = 3
 				if strings.Contains(resp.Err, sumName) && resp.ErrKind == "other" {
@@ -825,6 +889,13 @@ func (prop) Run(raw json.RawMessage, scratch string) core.Result {
 				}
 			}
 			ro.ErrText = resp.Err
+			ro.CtxDone, ro.Fired = resp.CtxDone, resp.Fired
+			if c := o.Cancel; c != nil && resp.ErrKind != "load" && resp.CtxDone != (!c.inPkg() || resp.Fired) && !(c.Deadline && !resp.Fired) {
+				return fatal("run %d: cancellation %+v, point reached = %v, but ctx.Err() != nil is %v", k, *c, resp.Fired, resp.CtxDone)
+			}
+			if o.Cancel == nil && resp.CtxDone {
+				return fatal("run %d: context.Background() is done", k)
+			}
 			ro.Reloaded, ro.ReloadOK = loadSum(root)
 			for i, p := range in.Pkgs {
 				d, err := os.ReadFile(filepath.Join(root, p.Dir, genFile))
@@ -843,7 +914,42 @@ func (prop) Run(raw json.RawMessage, scratch string) core.Result {
 			if o.Fail != nil {
 				fail = fmt.Sprintf("(Some %d)", *o.Fail)
 			}
-			coqOp = fmt.Sprintf("CRun %s %s %s %s", core.CoqBool(o.All), core.CoqBool(o.Force), core.CoqList(es), fail)
+			cancel := "None"
+			if c := o.Cancel; c != nil {
+				cancel = "(Some None)"
+				if c.inPkg() {
+					cancel = fmt.Sprintf("(Some (Some %d))", c.P)
+				}
+				tags["run:cancel:"+c.At] = true
+				if c.Deadline || c.At == "expired" {
+					tags["run:cancel:deadline"] = true
+				}
+				if c.inPkg() {
+					sc := in.scopeSorted(o)
+					switch {
+					case !resp.Fired:
+						tags["run:cancel:point-not-reached"] = true
+					case len(sc) > 0 && sc[0] == c.P:
+						tags["run:cancel:in-first-of-scope"] = true
+					case len(sc) > 0 && sc[len(sc)-1] == c.P:
+						tags["run:cancel:in-last-of-scope"] = true
+					default:
+						tags["run:cancel:between-packages"] = true
+					}
+				}
+				switch {
+				case !o.All:
+					tags["run:cancel:without-all"] = true
+				case o.Force:
+					tags["run:cancel:force"] = true
+				case o.Entry != nil:
+					tags["run:cancel:subset"] = true
+				}
+				if o.Fail != nil {
+					tags["run:cancel:failing"] = true
+				}
+			}
+			coqOp = fmt.Sprintf("CRun %s %s %s %s %s", core.CoqBool(o.All), core.CoqBool(o.Force), core.CoqList(es), fail, cancel)
 			if o.All && o.Force && o.Entry != nil {
 				tags["run:force-all-subset"] = true
 				if in.reachesUnrequested(o.Entry) {
@@ -1031,8 +1137,8 @@ func (e *coqEnc) run(r *runObs) string {
 	for _, h := range r.Hashes {
 		hs = append(hs, core.CoqOpt(h != "", e.b(h)))
 	}
-	return fmt.Sprintf("(Some (mk_crun %s %d %s %s %s))", core.CoqList(ex), r.Err, core.CoqList(hs),
-		e.kvOpt(r.Loaded, r.LoadedOK), e.kvOpt(r.Reloaded, r.ReloadOK))
+	return fmt.Sprintf("(Some (mk_crun %s %d %s %s %s %s))", core.CoqList(ex), r.Err, core.CoqList(hs),
+		e.kvOpt(r.Loaded, r.LoadedOK), e.kvOpt(r.Reloaded, r.ReloadOK), core.CoqBool(r.CtxDone))
 }
 
 // ---------- sumfile.Load / File.Bytes on arbitrary data ----------
